@@ -459,6 +459,29 @@ def rechunk_chain(ctx: Ctx) -> None:
     repo = ctx.repo
     gen = repo.get(f"{A.OPS}._rechunk_plan")
     consumers = [repo.get(f"{A.OPS}.rechunk"), repo.get(f"{RECHUNK_MOD}.rechunk_plan")]
+    # every function of the package that offers one of rechunk's options under the same name
+    # and calls rechunk / rechunk_plan hands it on (CoreArray.rechunk, wrappers)
+    OPTIONS = [p_ for p_ in gen.params[2:]]
+    for d_, c_, ts_ in repo.all_call_sites():
+        if d_ is None or d_ in consumers or d_ is gen or d_.module.qual.startswith(("cubed.vendor.", "cubed.tests")):
+            continue
+        tq = [t for t in ts_ if t.kind == "def" and t.ref in consumers]
+        if not tq:
+            continue
+        callee = tq[0].ref
+        dfl, dcfg = flow_of(repo, d_), cfg_of(d_)
+        if not dcfg.has(c_):
+            continue
+        kw = {k.arg: k.value for k in c_.keywords if k.arg}
+        star = any(k.arg is None for k in c_.keywords)
+        for opt in OPTIONS:
+            if opt not in d_.params or opt not in callee.params:
+                continue
+            v = kw.get(opt)
+            if v is None and star:
+                continue
+            ok = v is not None and opt in dfl.taint(v, dcfg.node_of(c_))
+            ctx.ob(d_, c_, ok, f"{d_.name} offers `{opt}` and hands it on to {callee.name}" + ("" if ok else f" — it does not: `{opt}` given to {d_.name} has no effect, the default of {callee.name} is used instead"), sel=f"chain:wrapper-forward:{opt}", firm=True)
     for c in consumers:
         fl, cfg = flow_of(repo, c), cfg_of(c)
         calls = repo.calls_to(c, gen.qual)
@@ -486,6 +509,27 @@ def rechunk_chain(ctx: Ctx) -> None:
             others = {q for q in c.params if q != p and q in gen.params}
             ok = p in t and not (t & others)
             ctx.ob(c, call, ok, f"{c.name} forwards its `{p}` to the stage generator's `{p}`" + ("" if ok else f" — `{unparse(v, 40)}` derives from {sorted(t)}"), sel=f"chain:forward:{p}", firm=True)
+    # the reported plan is a chain: what a copy reads from is what the previous copy wrote
+    rp = consumers[1]
+    rfl, rcfg = flow_of(repo, rp), cfg_of(rp)
+    rgen = repo.calls_to(rp, gen.qual)[0]
+    for rc_ in [x for x in rp.own_nodes() if isinstance(x, ast.Call) and any(t.kind in ("class", "def") and t.qual.endswith("RechunkCopy") for t in repo.resolve_call(x, rp, rp.module))]:
+        src = rc_.args[1] if len(rc_.args) > 1 else kwarg(rc_, "source_chunks")
+        if not isinstance(src, ast.Name) or not rcfg.has(rc_):
+            continue
+        carried = [s_ for s_ in rfl.rdefs(src.id, rcfg.node_of(rc_)) if s_.kind == "assign" and rcfg.nodes[s_.node].loops]
+        ctx.need(carried, "rechunk_plan: the reported source chunks are not carried from one copy to the next")
+        for s_ in carried:
+            idxs = set()
+            for n in ast.walk(s_.value):
+                if isinstance(n, ast.Name):
+                    for d2 in rfl.rdefs(n.id, s_.node):
+                        if d2.kind == "for" and d2.value is not None and any(x is rgen for x in ast.walk(d2.value)) and d2.index and isinstance(d2.index[-1], int):
+                            idxs.add(d2.index[-1])
+            ctx.need(idxs, f"rechunk_plan: `{unparse(s_.value, 30)}` is not an element of the planned pairs")
+            ok = idxs == {1}
+            ctx.ob(rp, rcfg.nodes[s_.node].stmt, ok, "the next reported copy reads from the chunks the previous one wrote (element 1 of the pair)" + ("" if ok else " — it is set to the previous copy's *copy* chunks: the reported stages no longer describe the arrays that are built"), sel="chain:report-source", firm=True)
+
     # roles of the pair at the copy constructor
     r = consumers[0]
     fl, cfg = flow_of(repo, r), cfg_of(r)
@@ -527,6 +571,37 @@ def rechunk_chain(ctx: Ctx) -> None:
         v = bound.get(flag)
         ok = v is not None and flag in fl.taint(v, at)
         ctx.ob(r, c, ok, "the copy constructor is told whether irregular chunks are allowed", sel="chain:forward-copy:allow_irregular")
+
+    # a request object (dict / list chunk spec) belongs to the caller: the rechunk functions
+    # normalise a copy, never the argument itself — otherwise the next array rechunked with
+    # the same spec object is planned towards the first array's block sizes
+    MUT = {"pop", "update", "setdefault", "clear", "popitem", "append", "extend", "insert", "remove", "sort", "reverse", "__setitem__", "__delitem__"}
+    for fn in (gen, consumers[0], consumers[1], cons):
+        ffl, fcfg = flow_of(repo, fn), cfg_of(fn)
+        hits = []
+        for n in fn.own_nodes():
+            recv = None
+            if isinstance(n, (ast.Assign, ast.AugAssign, ast.Delete)):
+                tg = n.targets if isinstance(n, (ast.Assign, ast.Delete)) else [n.target]
+                for t in tg:
+                    if isinstance(t, ast.Subscript) and isinstance(t.value, ast.Name):
+                        recv = t.value
+            elif isinstance(n, ast.Call) and isinstance(n.func, ast.Attribute) and n.func.attr in MUT and isinstance(n.func.value, ast.Name):
+                recv = n.func.value
+            if recv is None or not fcfg.has(n):
+                continue
+            ds = ffl.rdefs(recv.id, fcfg.node_of(n))
+            if any(s_.kind == "param" for s_ in ds) and recv.id in fn.params:
+                hits.append((n, recv.id))
+        ctx.ob(
+            fn,
+            hits[0][0] if hits else None,
+            not hits,
+            f"{fn.name} leaves its arguments as the caller passed them"
+            + ("" if not hits else f" — `{unparse(hits[0][0], 50)}` changes the caller's `{hits[0][1]}` object in place: a chunk specification reused for a second array carries the first array's sizes"),
+            sel=f"chain:request-intact:{fn.name}",
+            firm=True,
+        )
 
     # the regular path of the copy constructor stores with the chunks it was asked for
     f = cons
